@@ -18,7 +18,8 @@ Tick == 100000      \* microseconds per abstract tick
 Open(s) == st[s] \in {"attempted", "handshake_confirmed"}
 
 MCInit ==
-    /\ k = [LInit(IdleTicks * Tick, FALSE) EXCEPT !.state = [s \in Sides |-> "attempted"]]
+    /\ k = [LInit(IdleTicks * Tick, FALSE) EXCEPT !.state = [x \in {<<s, "g">> : s \in Sides} |-> "attempted"],
+                                                  !.stateAt = [x \in {<<s, "g">> : s \in Sides} |-> 0]]
     /\ now = 0
     /\ st = [s \in Sides |-> "attempted"]
     /\ pend = [s \in Sides |-> {"read", "write", "open", "accept"}]     \* operations parked on each endpoint
@@ -31,7 +32,7 @@ Advance == /\ now < MaxTime /\ now' = now + 1
 
 Confirm(s) == /\ st[s] = "attempted"
               /\ st' = [st EXCEPT ![s] = "handshake_confirmed"]
-              /\ k' = StateUpdated(k, s, "attempted", "handshake_confirmed")
+              /\ k' = StateUpdated(k, s, "g", "attempted", "handshake_confirmed", now * Tick)
               /\ UNCHANGED <<now, pend, closeMsg, err, lastRcv>>
 
 \* entering closing fails every pending operation at once and fixes the error
@@ -39,7 +40,7 @@ Leave(s, to, why, kk) ==
     /\ st' = [st EXCEPT ![s] = to]
     /\ err' = [err EXCEPT ![s] = IF err[s] = "" THEN why ELSE err[s]]
     /\ pend' = [pend EXCEPT ![s] = {}]
-    /\ k' = TasksDone(Terminated(ConnectionClosed(StateUpdated(kk, s, st[s], to), s), s, now * Tick), s, now * Tick)
+    /\ k' = TasksDone(Terminated(ConnectionClosed(StateUpdated(kk, s, "g", st[s], to, now * Tick), s, "g"), s, now * Tick), s, now * Tick)
 
 AppCloses(s) == /\ Open(s)
                 /\ Leave(s, "closing", "local", AppClose(k, s, now * Tick))
